@@ -1043,7 +1043,12 @@ class ParserField:
                     return unprovided
 
             discriminator = value.get(self.discriminator)
-            if discriminator in self.discriminator_map:
+            try:
+                matched = discriminator in self.discriminator_map
+            except Exception:   # noqa
+                # an unhashable discriminator value (a list / dict) matches nothing
+                matched = False
+            if matched:
                 type = self.discriminator_map[discriminator]
                 # directly assign type instead parse it in a Logical context
             else:
